@@ -390,3 +390,22 @@ def add_error_rules(g, rnd):
         g.rules.insert(rnd.randrange(len(g.rules) + 1), Rule(r.lhs, pre + [('e',)] + post))
     g.note += '+error'
     return g
+
+
+def to_custom_lexer(g, rnd):
+    """same grammar over custom terms, with a scripted lexer: byte -> (term, lexeme length); lengths > 1 make the lexer
+    swallow following bytes (not a longest match), unmapped bytes make it fail, a few foreign bytes map to random terms"""
+    g = clone(g)
+    term = [-1] * 256; ln = [1] * 256
+    for j, t in enumerate(g.terms):
+        ch = t.text[0]
+        g.terms[j] = Term('k', t.text, t.prec, t.assoc, name=t.display(), typed=True)
+        term[ord(ch)] = j; ln[ord(ch)] = rnd.choice([1, 1, 1, 1, 2, 3])
+    for b in rnd.sample(range(256), rnd.choice([0, 2, 6])):
+        if term[b] < 0 and b not in b'\t\n\x0b\x0c\r ': term[b] = rnd.randrange(len(g.terms)); ln[b] = rnd.choice([1, 2, 4])
+    if rnd.random() < 0.3:
+        b = rnd.choice(b' \n\t'); term[b] = rnd.randrange(len(g.terms)); ln[b] = 1      # a whitespace byte that is a term when not skipped
+    g.lexspec = (term, ln)
+    g.vtypes = [v if v != 'I' else 'V' for v in g.vtypes]
+    g.note += '+customlexer'
+    return g
